@@ -38,6 +38,11 @@ def gen_cases(tier, seed):
     for i in range(40 if tier == "quick" else 3000):
         cases.append({"kind": "flow", "cfg": dzoo.sample_flow_cfg(rng), "seed": env.subseed(seed, "c18f", i),
                       "world": "f32" if i % 2 else "f64", "cost": 3})
+    # flows whose transform changes the event shape, with and without context (every run)
+    for i, (f, ctx) in enumerate(((2, 2), (3, 2), (2, 0), (3, 0))):
+        cases.append({"kind": "flow", "cfg": {"flow": "image", "C": 1 + i % 2, "H": f * (1 + i % 2), "W": f * 2, "factor": f, "ctx": ctx,
+                                              "actnorm": bool(i % 2), "conv": True},
+                      "seed": env.subseed(seed, "c18img", i), "world": "f32" if i % 2 else "f64", "cost": 3})
     cases.append({"kind": "suite", "seed": env.subseed(seed, "c18suite"), "world": "f32", "cost": 30})
     return cases
 
